@@ -27,6 +27,9 @@ def raise_guards(fn):
 
 
 def guarded_append(prog, cd, rep):
+    """Path summaries of each adder: `self.<list>.append(item)` is reached only on paths where the item was found to be an
+    instance of the element class and its frame count equal to the block's; the paths on which either fails end in
+    TypeError / ValueError, and no path that ends in a refusal has changed the block."""
     pairs = {}
     for modname, cname, mname, attr in BLOCKS:
         c = prog.need_cls(cname, modname)
@@ -35,72 +38,88 @@ def guarded_append(prog, cd, rep):
         fq = f"{cname}.{mname}"
         sn = f.self_name or "self"
         p = f.params[0]
-        cfg = CFG(f.node)
-        apps = [st for st in walk_no_nested(f.node) if isinstance(st, ast.Expr) and isinstance(st.value, ast.Call) and isinstance(st.value.func, ast.Attribute)
-                and st.value.func.attr == "append" and is_self_attr(st.value.func.value, attr, sn)]
-        if not apps:
-            raise AnalysisError(f"{fq}: no append to self.{attr} (anchor vanished)")
-        guards = raise_guards(f.node)
-        tguard = lguard = None
+        paths = facts.path_returns(f.node)
+
+        def type_fact(t, pol):
+            if isinstance(t, ast.Call) and norm(t.func) == "isinstance" and len(t.args) == 2 and norm(t.args[0]) == p:
+                return norm(t.args[1]), pol
+            return None
+
+        def length_fact(t, pol):
+            ef = facts.equality_fact(t, pol)
+            if ef is None:
+                return None
+            a, b, eq = ef
+            for x, y in ((a, b), (b, a)):
+                if isinstance(x, ast.Attribute) and norm(x.value) == p and is_self_attr(y, self_name=sn):
+                    return x.attr, y.attr, eq
+            return None
+
+        # refusals
+        type_exc, len_exc = [], []
+        for pe in paths:
+            if pe.kind != "raise":
+                continue
+            exc = pe.value.func if isinstance(pe.value, ast.Call) else pe.value
+            en = norm(exc) if exc is not None else ""
+            fl = facts.flat_facts(pe.guards)
+            # the refusing fact is the last one on the path
+            if fl:
+                t, pol = fl[-1]
+                tf, lf = type_fact(t, pol), length_fact(t, pol)
+                if tf and not tf[1]:
+                    type_exc.append((en, pe.node))
+                if lf and not lf[2]:
+                    len_exc.append((en, pe.node))
+            if facts.self_mutations(pe.effects, sn):
+                rep.fail("guarded-append", mod, fq, pe.node, "the block is modified before the item has passed both checks: a refusal leaves it changed")
+        n_app = 0
         K = None
-        for test, exc, st in guards:
-            s = norm(test).replace(" ", "")
-            # type guard: not isinstance(p, K)
-            if isinstance(test, ast.UnaryOp) and isinstance(test.op, ast.Not) and isinstance(test.operand, ast.Call) and norm(test.operand.func) == "isinstance" \
-                    and norm(test.operand.args[0]) == p:
-                tguard = (st, exc, norm(test.operand.args[1]))
-                K = prog.resolve_class(c.module, norm(test.operand.args[1]))
-            # length guard: p.X != self.Y
-            if isinstance(test, ast.Compare) and len(test.ops) == 1 and isinstance(test.ops[0], ast.NotEq):
-                a, b = test.left, test.comparators[0]
-                for x, y in ((a, b), (b, a)):
-                    if isinstance(x, ast.Attribute) and norm(x.value) == p and is_self_attr(y, self_name=sn):
-                        lguard = (st, exc, x.attr, y.attr)
-        for ap in apps:
-            an = cfg.node_of(ap)
-            for what, g, want_exc in (("type", tguard, "TypeError"), ("length", lguard, "ValueError")):
-                if g is None:
-                    rep.fail("guarded-append", mod, fq, ap, f"the append is not preceded by a {what} check that refuses the item", construct=f"{fq} {what} guard")
-                    continue
-                gn = cfg.node_of(g[0])
-                if gn is not None and an is not None and cfg.dominates(gn, an):
-                    if g[1] == want_exc:
-                        rep.ok("guarded-append", f"{fq}: {what} check (`{norm(g[0].test)}` -> {g[1]}) dominates the append", nontrivial=True)
+        lpair = None
+        for pe in paths:
+            if pe.kind == "raise":
+                continue
+            apps = [x for e in pe.effects for x in ast.walk(e) if isinstance(x, ast.Call) and isinstance(x.func, ast.Attribute) and x.func.attr == "append"
+                    and is_self_attr(x.func.value, attr, sn)]
+            if not apps:
+                continue
+            fl = facts.flat_facts(pe.guards)
+            tfs = [x for x in (type_fact(t, pol) for t, pol in fl) if x and x[1]]
+            lfs = [x for x in (length_fact(t, pol) for t, pol in fl) if x and x[2]]
+            for ap in apps:
+                n_app += 1
+                for what, have, excs, want_exc in (("type", tfs, type_exc, "TypeError"), ("length", lfs, len_exc, "ValueError")):
+                    if not have:
+                        rep.fail("guarded-append", mod, fq, ap, f"the append is reached on a path that has not passed a {what} check that refuses the item", construct=f"{fq} {what} guard")
+                        continue
+                    bad = [e for e in excs if e[0] != want_exc]
+                    if bad:
+                        rep.fail("guarded-append", mod, fq, bad[0][1], f"the {what} check raises {bad[0][0]}, the interface promises {want_exc}")
+                    elif not excs:
+                        rep.fail("guarded-append", mod, fq, ap, f"an item failing the {what} check is silently skipped instead of refused with {want_exc}", construct=f"{fq} {what} refusal")
                     else:
-                        rep.fail("guarded-append", mod, fq, g[0], f"the {what} check raises {g[1]}, the interface promises {want_exc}")
-                else:
-                    rep.fail("guarded-append", mod, fq, g[0], f"the {what} check does not dominate the append (a path reaches `self.{attr}.append` around it)")
+                        rep.ok("guarded-append", f"{fq}: the append is reached only after the {what} check held; otherwise {want_exc}", nontrivial=True)
+                if tfs:
+                    K = prog.resolve_class(c.module, tfs[0][0])
+                if lfs:
+                    lpair = lfs[0]
+        if not n_app:
+            raise AnalysisError(f"{fq}: no append to self.{attr} (anchor vanished)")
         # matching pair: track property = rows of its array; block attribute = the frame count the decoder passes down
-        if lguard is not None and K is not None:
-            tp, battr = lguard[2], lguard[3]
+        if lpair is not None and K is not None:
+            tp, battr = lpair[0], lpair[1]
             g = prog.lookup_method(K, tp, "getter")
             body = facts.property_body_expr(prog, K, tp) if g is not None else None
             rows = body is not None and isinstance(body, ast.Subscript) and norm(body.slice) == "0" and norm(body.value).endswith(".shape")
             if rows:
                 rep.ok("guarded-append", f"{fq}: {K.name}.{tp} is the number of rows of the track's array ({norm(body)})")
             else:
-                rep.fail("guarded-append", mod, fq, lguard[0], f"`{p}.{tp}` is not the track's frame count (rows of its sample array)")
-            pairs[cname] = (K, tp, battr, lguard[0])
+                rep.fail("guarded-append", mod, fq, f.node, f"`{p}.{tp}` is not the track's frame count (rows of its sample array)", construct=f"{fq} :: {p}.{tp}")
+            pairs[cname] = (K, tp, battr, f.node)
             # block attr must be a plain stored attribute (not a derived count such as nTracks)
             if prog.lookup_method(c, battr, "getter") is not None:
-                rep.fail("guarded-append", mod, fq, lguard[0], f"the track length is compared with `self.{battr}`, a derived property, not the block's own frame count")
-        # nothing mutates self before the checks
-        first_mut = None
-        for st in walk_no_nested(f.node):
-            if isinstance(st, (ast.Assign, ast.AugAssign)):
-                for t in (st.targets if isinstance(st, ast.Assign) else [st.target]):
-                    base = t
-                    while isinstance(base, (ast.Attribute, ast.Subscript)):
-                        base = base.value
-                    if isinstance(base, ast.Name) and base.id == sn:
-                        first_mut = first_mut or st
-            if isinstance(st, ast.Expr) and isinstance(st.value, ast.Call) and isinstance(st.value.func, ast.Attribute) and st.value.func.attr in ("append", "insert", "extend", "remove", "pop") \
-                    and is_self_attr(st.value.func.value, self_name=sn):
-                n = cfg.node_of(st)
-                for g in (tguard, lguard):
-                    if g is not None and n is not None and not cfg.dominates(cfg.node_of(g[0]), n):
-                        rep.fail("guarded-append", mod, fq, st, "the block is modified before the item has passed both checks: a refusal leaves it changed")
-        rep.ok("guarded-append", f"{fq}: no mutation of self precedes the checks")
+                rep.fail("guarded-append", mod, fq, f.node, f"the track length is compared with `self.{battr}`, a derived property, not the block's own frame count", construct=f"{fq} :: self.{battr}")
+        rep.ok("guarded-append", f"{fq}: no path that ends in a refusal has modified self")
     rep.floor("guarded-append", len(pairs), 3)
     return pairs
 
